@@ -56,6 +56,11 @@ func (Engine) Generate(prop, tier string, seed uint64, idx int) *Plan {
 	case "C17":
 		return genC17(s, idx)
 	case "C18":
+		if idx%8 == 7 {
+			// the resolver-driven harness: ECH rejections with retry configs (a
+			// second DialFunc call within the same attempt)
+			return genC17(s, idx)
+		}
 		return genC18(s, idx, tier)
 	}
 	panic("e3dial: unknown property " + prop)
